@@ -42,6 +42,19 @@ def run_interop_scenario(plan, sched_values=None, sched_seed=0):
         for op in plan.get('server_ops', []):
             k.at(op['t'], lambda op=op: _server_op(h, op), 'sop')
         k.run()
+        # what the connect handler sent counts as sent by the server
+        for e in h.sapp.events:
+            if e['ev'] == 'connect' and e.get('fault') == 'send':
+                for f in plan.get('app_opts', {}).get('handler_faults', []):
+                    if f.get('event') == 'connect':
+                        for d in ServerApp._send_data(f):
+                            h.server_sends.append({
+                                'seq_start': e['seq'], 't_start': e['t'],
+                                'sid': e['sid'], 'val': d, 'greeting': True,
+                                'before': {'closed': False,
+                                           'closing': False}})
+        h.server_sends.sort(key=lambda r: (r['seq_start'] is None,
+                                           r['seq_start'] or 0))
         import engineio.base_client as bc
         h.final = {
             'now': k.now, 'capped': k.capped,
@@ -153,11 +166,17 @@ def gen_interop_plan(rng, prof=None):
         link.append({'t0': t0, 't1': t0 + rng.choice([0.1, 1.0, 30.0]),
                      'verdict': rng.choice(['refuse', 'lose_req',
                                             'lose_resp']), 'on': 'any'})
+    greet = []
+    if rng.random() < p.get('p_greet', 0.3):
+        # the application greets the new session from its connect handler:
+        # the messages travel in the answer to the open request
+        greet.append({'event': 'connect', 'nth': 0, 'action': 'send',
+                      'data': 'greeting', 'n': rng.choice([1, 1, 2, 3])})
     plan = {'server': server, 'config': cfg,
             'client': {'kind': kind, 'request_timeout': rt, 'ops': ops,
                        'handler_actions': []},
             'server_ops': sops, 'link_faults': link,
-            'app_opts': {'connect': {}, 'handler_faults': [],
+            'app_opts': {'connect': {}, 'handler_faults': greet,
                          'coroutine_handlers': rng.random() < 0.7},
             'horizon': span + I + 3 * T + 5 + 2 * rt + 3.0,
             'rng_seed': rng.randrange(1 << 30),
